@@ -58,6 +58,8 @@ class RefPeer:
         if self.silent or not frame.ext or frame.remote or frame.error:
             return
         f = R.id_fields(frame.can_id)
+        if f["sa"] == self.sa:
+            return                      # somebody spoofs our address: not ours to answer
         d = frame.data
         if self.fd:
             if f["pf"] == R.FD_CM_PF:
